@@ -4,7 +4,6 @@
 //! Implement Hayson encoding
 //!
 
-
 use crate::haystack::val::{
     Column, Coord, Date, DateTime, Dict, Grid, Marker, Na, Number, Ref, Remove, Symbol, Time, Uri,
     Value as HVal, XStr,
